@@ -63,6 +63,11 @@ claimed["C10"] = ("contract-based deductive verification: call-site assertions, 
   "Trusted: contracts of Decoder.Init/Decode (fresh node per document, writes no existing node), Printer/Encoder/PrinterWriter interface contracts, dispatcher contract, ParseExpression writes no document/list; rootDocument/rootFileIndex of a result are the stamps of its document root (assumed clause on GetDocument/GetFileIndex); call-graph frames assume no reflection-based method calls; fewer than 2^62 documents/files (machine integers otherwise modelled with wrap-around).",
   "DESIGN.md §5 C10")
 
+claimed["C01"] = ("contract-based deductive verification: combinator laws as call-site assertions over the arguments of every evaluation (ghost log of the last two result lists), loop invariants over container/list, and scalar kernels against spec functions with 64-bit wrap-around, as VCs from go/ssa discharged by z3/cvc5",
+  "Proved for all inputs: `|` evaluates its left side on the input context and its right side on exactly the left side's result list, and returns the right side's result list; `,` evaluates both sides on the input and returns the left results followed by the right results; binary operators (doCrossFunc/resultsForRHS/crossFunctionWithPrefs) evaluate the left side once per group, the right side once per left result, call the calculation on (left_i, right_j) for i outer / j inner in list order, append results in that order, and group per input node unless every input is marked EvaluateTogether; select keeps exactly the inputs whose predicate (evaluated read-only on that input alone) yields some truthy result; array indexing returns element i, or n+i for negative i, errors only for non-numbers or i < -n; `.[a:b]` clamps and copies elements from..to-1 (F2 panic found here and fixed); integer +, -, *, % equal the int64 (wrap-around) result of the parsed operands printed in decimal, `% 0` is an error, adding/subtracting/modulo of undefined type pairs is an error. Known finding F16 (`., .`). Partial: the denotation of each handler is the trusted dispatcher contract; float arithmetic and formatting, hex/octal reprinting, string operators, collect/object construction, group_by/unique/flatten/entries/contains, reduce/variables, length/keys/has and the lexer/parser half (see C09) are not decided here.",
+  "Trusted: dispatcher contract (its result list is logged in ghost state; it writes only document nodes), variableLoop (`as $x`), functype contracts of calculations; strconv/fmt models (Sprintf \"%v\" of an int64 is its decimal text); a list made by list.New() and handed only to list methods or non-leaking callees is not returned by unrelated calls (checked syntactically).",
+  "DESIGN.md §5 C01")
+
 not_yet = {}
 
 def hook_commits():
